@@ -247,3 +247,16 @@ def dsim(circuit):
     for w, bits, st in branches:
         out[bits if n_out else 0] += w * np.vdot(st, st).real
     return out
+
+
+def postprocess_only_select_scale(tkc, dist):
+    """post-selection and scaling WITHOUT the classical post-processing (what
+    tk.Circuit.get_counts returns) as an array over post_processing.dom."""
+    sel = postselect(tkc, dist)
+    n = len(tkc.post_processing.dom)
+    vec = np.zeros((2,) * n or (1,), dtype=complex)
+    for key, p in sel.items():
+        if len(key) != n:
+            raise ValueError("post-processing expects %d bits, counts have %d" % (n, len(key)))
+        vec[key if n else 0] += p * tkc.scalar
+    return vec
